@@ -110,6 +110,31 @@ def o_write_ahead(ex, V):
                     V("C03.delivered_without_terminal_record", {"inv": k, "pos": ev[1], "outcome": ev[2], "backend_status": st})
         if inv["end"]["end"] == "suspended" and not inv["enabled_after"]:
             V("C03.pending_without_parking_record", {"inv": k, "table": inv["tbl"]})
+        if inv["end"]["end"] == "suspended":
+            # every retry / wait / callback / invoke record this invocation wrote before parking must be held by the
+            # backend when PENDING is reported (a non-blocking or abandoned write would leave nothing to wake it)
+            start = {tuple(r["pos"]): r for r in inv["start_tbl"]}
+            end = {tuple(r["pos"]): r for r in inv["tbl"]}
+            retries = {}
+
+            def under_finished_context(p_):   # the table hides what lies under a completed context
+                return any((end.get(p_[:i]) or {}).get("status") in TERMINAL for i in range(1, len(p_)))
+            for ev in inv["raw_trace"]:
+                if ev[0] == "upd" and ev[1].get("pos") is not None:
+                    u = ev[1]
+                    p_ = tuple(u["pos"])
+                    if under_finished_context(p_):
+                        continue
+                    if u["action"] == "RETRY":
+                        retries[p_] = retries.get(p_, 0) + 1
+                    elif u["action"] == "START" and u["type"] in ("WAIT", "CALLBACK", "CHAINED_INVOKE") and p_ not in end:
+                        V("C03.pending_but_parking_record_not_held", {"inv": k, "pos": list(p_), "update": [u["type"], u["action"]]})
+            for p_, n in retries.items():
+                a0 = (start.get(p_) or {}).get("attempt", 0)
+                a1 = (end.get(p_) or {}).get("attempt", -1)
+                if a1 < a0 + n:
+                    V("C03.pending_but_retry_record_not_held", {"inv": k, "pos": list(p_), "retries_written": n, "attempt_at_start": a0,
+                                                                 "attempt_held_by_backend": a1})
 
 
 @oracle("C04")
@@ -190,6 +215,10 @@ def o_step_retries(ex, V):
             elif ev[0] == "upd" and ev[1]["kind"] == "step" and ev[1]["action"] == "RETRY":
                 if (ev[1]["delay"] or 0) < 1:
                     V("C12.retry_delay_below_one", {"update": ev[1]})
+        for ev in inv["raw_trace"]:
+            # a failure reaches the caller only after its FAIL record is held by the backend
+            if ev[0] == "deliver" and "err" in ev[2] and tuple(ev[1]) in specs and len(ev) > 3 and ev[3] != "FAILED":
+                V("C12.failure_raised_before_fail_record", {"inv": k, "pos": ev[1], "error": ev[2]["err"], "backend_status": ev[3]})
         for r in inv["tbl"]:
             sp = specs.get(tuple(r["pos"]))
             if sp is not None and r["kind"] == "step":
@@ -395,8 +424,41 @@ def run(ctx, prop, n_quick=500, n_thorough=10000, crash_p=0.25, fault_p=0.1, cor
 
 
 def search(ctx, prop, n=600):
+    # targeted first: the scripts on which model and implementation disagreed, under many other plans/schedules
+    targets = []
+    for d in getattr(ctx, "disagreements", []):
+        c = d.get("case") if isinstance(d, dict) else None
+        if isinstance(c, dict) and "script" in c and c["script"] not in [t[0] for t in targets]:
+            targets.append((c["script"], c.get("limits")))
     saved, ctx.driver = ctx.driver, None
     try:
+        def catching(stmts):
+            out = []
+            for st in stmts:
+                st = dict(st)
+                if "catch" in st:
+                    st["catch"] = True
+                if st.get("op") == "child":
+                    st["body"] = catching(st["body"])
+                out.append(st)
+            return out
+        variants = []
+        for script, limits in targets[:8]:
+            variants.append((script, limits))
+            # the same program with every error caught and one more suspension appended: what a first completion
+            # delivered then becomes observable again on a replay
+            for v in (catching(script), [dict(st, catch=True) if "catch" in st else st for st in script]):
+                v = v + [{"op": "wait", "secs": 1}]
+                if len(v) <= 14 and v not in [x[0] for x in variants]:
+                    variants.append((v, limits))
+        for script, limits in variants:
+            for j in range(45):
+                E.ANY_CALL_FAULTS = 0.5 if j % 3 == 2 else 0.0
+                try:
+                    one(ctx, script, ctx.rng.randrange(1 << 30), prop, component="engine.search.targeted", limits=limits,
+                        crash_p=0.2 if j % 3 == 1 else 0.0, fault_p=0.3 if j % 3 == 0 else 0.0)
+                finally:
+                    E.ANY_CALL_FAULTS = 0.0
         for i in range(n):
             script = E.gen_script(ctx.rng, focus=prop if i % 2 else None)
             one(ctx, script, ctx.rng.randrange(1 << 30), prop, component="engine.search")
